@@ -312,6 +312,21 @@ fn exec(c: &ShutCase, env: &Env) -> Outcome {
                 ));
                 break;
             }
+            // a client that was idle (everything it sent had been answered) leaves no unread input
+            // in the server's socket, so the server's close is an orderly one: end of stream, never
+            // a connection reset
+            if c.clients[ci].kind % 8 == 0 && r.reset {
+                verdict = Some((
+                    "idle-connection-reset".into(),
+                    format!(
+                        "client {} was idle when shutdown fired (all {} requests answered, nothing unread on the server side) but its stream ended with a connection reset instead of end-of-stream",
+                        ci,
+                        r.sent.len()
+                    ),
+                    false,
+                ));
+                break;
+            }
             // complete replies followed by end of stream: a partial reply before a clean EOF is torn
             if r.trailing > 0 && !r.reset {
                 verdict = Some((
@@ -456,7 +471,7 @@ pub fn prop() -> Prop<ShutCase> {
         rule: "Cases: 1-6 clients against an in-process server, each scripted into a state at the moment shutdown fires: idle after 0-2 acknowledged SETs; part of a frame sent (generated fraction); one complete SET with a value up to 300 KiB (1 MiB thorough) sent and the reply not yet read; 2-11 pipelined SETs; 12-66 pipelined GETs of a large value (up to 20 MB of replies, more than the socket buffers hold) read late and slowly; or already finished (acknowledged round trips and a clean close before the window); a client that keeps the connection saturated with batches of pipelined GETs until its stream ends; one complete GET of a large value followed by part of the next request. The shutdown signal fires a generated 0-8 ms after the clients start those sends. Every client then reads to the end of its stream and closes. Oracles: Server::run returns within 10 s after the last client closed; the server ends every stream within 12 s; each client's bytes parse with a strict reader into complete, correct replies in order followed by end of stream (a partial reply before a clean EOF is a torn reply; after a connection reset trailing bytes are not judged); after run returned, for each client the store equals the state after its first j complete commands for some j >= the number of replies it received. Non-trivial: shutdown fired while at least one client was mid-frame or mid-command; distinct = distinct hash of the case.",
         assumptions: &[
             "a client that never reads and never closes is not generated: run() is required to return once connections have wound down",
-            "end of stream is accepted as EOF or connection reset (a server closing a socket with unread pipelined requests sends RST, which may purge data the client had not read yet)",
+            "end of stream is accepted as EOF or connection reset (a server closing a socket with unread pipelined requests sends RST, which may purge data the client had not read yet), except for clients that were idle at the shutdown: nothing of theirs is unread, so their stream must end with EOF",
             "missed liveness bounds count as violations only after a fast calibration round trip on an idle second server",
         ],
         needs_shim: false,
